@@ -168,7 +168,8 @@ def judge_verdicts(ctx, verdicts, recs, devs, label):
 def self_checks(ctx, vecs, uni, devs):
     """Binding demonstration (thorough tier): a flipped expectation must make the replay fail, damaged
     recordings must be rejected by the judge, and every listed deviation must be reproduced by the model."""
-    some = vecs[:: max(1, len(vecs) // 700)]
+    plain = [v for v in vecs if "outsK" not in v]
+    some = plain[:: max(1, len(plain) // 700)]
     rep = replay(ctx, some, uni, devs, label="selftest", extra=["-selftest-flip"])
     flipped = len(range(0, len(some), 7))
     bad = sum(1 for m in rep["mismatches"] if not m.get("known"))
